@@ -52,6 +52,7 @@ def handle (line : String) : Json :=
         | "local" => LazyDs.MachDriver.handleLocal j
         | "db" => LazyDs.MachDriver.handleDb j
         | "groupby" => LazyDs.MachDriver.handleGroupBy j
+        | "copycfg" => LazyDs.MachDriver.handleCopyCfg j
         | _ => .error s!"unknown family {fam}"
       match r with
       | .ok v => v
